@@ -296,7 +296,49 @@ fn receipt_limit(ctx: &mut Ctx) {
     }
 }
 
+/// Balances area: `init_inner` reserves `max_inputs * 40` bytes below the size word for the (asset, balance) table and
+/// `RuntimeBalances::to_vm` writes one entry per asset of the initial free balances with `.expect("Checked above")`.
+/// The table holds every coin-input asset PLUS the base asset (the fee is deducted from it even when no input carries it),
+/// so the boundary cases are k = max_inputs (and max_inputs - 1) coin inputs of pairwise different assets, with and
+/// without the base asset among them. Oracle: no host panic, no Bug.
+fn balances_area(ctx: &mut Ctx) {
+    use fuel_tx::{TxParameters, UtxoId};
+    for max_inputs in [1u16, 2, 3, 8, 255] {
+        let mut shapes = vec![(max_inputs, false), (max_inputs, true)];
+        if max_inputs > 1 { shapes.push((max_inputs - 1, false)); }
+        for (k, with_base) in shapes {
+            let tag = format!("balances-area max_inputs={max_inputs} coin-inputs={k} base-asset-among-them={with_base}");
+            let mut params = ConsensusParameters::standard();
+            params.set_tx_params(TxParameters::DEFAULT.with_max_inputs(max_inputs));
+            let mut b = TransactionBuilder::script(vec![fuel_asm::op::ret(RegId::ONE)].into_iter().collect(), vec![]);
+            b.with_params(params.clone());
+            b.script_gas_limit(1000).max_fee_limit(0);
+            for i in 0..k {
+                let mut asset = [0u8; 32];
+                if !(with_base && i == 0) { asset[0] = 1; asset[30] = (i >> 8) as u8; asset[31] = i as u8; }
+                let secret = fuel_crypto::SecretKey::try_from(fuel_types::Bytes32::from({ let mut s = [7u8; 32]; s[31] = 1; s })).expect("key");
+                b.add_unsigned_coin_input(secret, UtxoId::new([i as u8; 32].into(), i), 10, asset.into(), Default::default());
+            }
+            let tx = b.finalize();
+            let checked = match ctx.guard(|| tx.clone().into_checked(Default::default(), &params).map_err(|e| format!("{e:?}"))) {
+                Ok(Ok(c)) => c,
+                Ok(Err(e)) => { ctx.count("balances.rejected"); ctx.note(&format!("{tag}: rejected {e}")); continue; }
+                Err(m) => { ctx.oracle_fail("host-panic-balances-area-check", &tag, &m); continue; }
+            };
+            let ready = match checked.into_ready(0, params.gas_costs(), params.fee_params(), None) { Ok(r) => r, Err(_) => { ctx.count("balances.not-ready"); continue; } };
+            let mut vm: Vm = Interpreter::with_storage(MemoryInstance::new(), MemoryStorage::default(), fuel_vm::interpreter::InterpreterParams::new(0, &params));
+            let r = ctx.guard(|| vm.transact(ready).map(|_| ()).map_err(|e| g::err_name(&e)));
+            ctx.count(if with_base { "balances.with-base" } else { "balances.without-base" });
+            // the one input class with a known outcome gets its own fingerprint; any other panic of this pass stays a violation
+            let what = if k == max_inputs && !with_base { "balances-area-assets-exceed-max-inputs" } else { "balances-area" };
+            classify(ctx, &tag, what, r);
+            ctx.distinct(tag.as_bytes());
+        }
+    }
+}
+
 pub fn run(ctx: &mut Ctx) {
+    balances_area(ctx);
     receipt_limit(ctx);
     opcode_boundaries(ctx);
     // (1) cost sampling: unmutated generated programs, default schedule, single-stepped
